@@ -103,7 +103,7 @@ def parseCons (s : String) : Option (List Cons) :=
 
 def errName : CqmErr → String
   | .lowerBound => "lowerBound" | .encoding => "encoding"
-  | .quadraticConstraint => "quadraticConstraint" | .infeasible => "infeasible"
+  | .quadraticConstraint => "quadraticConstraint" | .infeasible => "infeasible" | .conflict => "conflict"
 
 def showSlackVar (v : SlackVar) : String :=
   s!"{toHex v.label}:{v.ncases}:" ++ String.intercalate "+" (v.cases.map fun c => s!"{c.1}={c.2}")
